@@ -181,7 +181,38 @@ def r14_5(run, model):
     run.floor("package merge sites in the pipelines", n, 5)
 
 
+def r14_8(run, model):
+    run.rule("R14.8", "a float literal survives the trip through a .core file: serde_json parses floats exactly only with its `float_roundtrip` "
+                      "feature (the default parser may be off by one ulp), so the workspace enables it - or Core does not store floats as "
+                      "JSON numbers")
+    import os
+    from lib.core import REPO
+    roots = [os.path.join(REPO, "Cargo.toml"), os.path.join(REPO, "crates/compiler/Cargo.toml")]
+    found = []
+    for pth in roots:
+        try:
+            txt = open(pth, encoding="utf-8").read()
+        except OSError:
+            continue
+        for m in re.finditer(r"(?m)^serde_json\s*(?:\.workspace\s*)?=\s*(.+)$", txt):
+            found.append((os.path.relpath(pth, REPO), m.group(1).strip()))
+        for m in re.finditer(r"(?ms)^\[(?:workspace\.)?dependencies\.serde_json\]\s*(.*?)(?=^\[|\Z)", txt):
+            found.append((os.path.relpath(pth, REPO), m.group(1).strip().replace("\n", " ")))
+    if not found:
+        raise AnalysisIncomplete("serde_json dependency declaration not found")
+    enabled = any("float_roundtrip" in spec for _, spec in found)
+    prim = model.enum("Prim") if any(e["name"] == "Prim" for e in model.enums()) else None
+    floats_as_numbers = True
+    if prim is not None:
+        fl = [f_["ty"] for v in prim["variants"] for f_ in v["fields"] if re.search(r"\bf(32|64)\b", f_["ty"])]
+        floats_as_numbers = bool(fl)
+    run.ob("R14.8", "serde_json|floats in artifacts round-trip", enabled or not floats_as_numbers, site("Cargo.toml", None),
+           f"serde_json declared as {found}; float_roundtrip enabled: {enabled}; Core stores floats as JSON numbers: {floats_as_numbers}",
+           witness="let x: float64 = 18990.203130737194f64; whole-program Go has 18990.203130737194, build + link gives 18990.20313073719 (another float64)")
+
+
 def run(run, model):
+    run.try_rule(r14_8, model)
     run.try_rule(r14_5, model)
     from rules import c13
     run.rule("R14.6", "check, build and the whole-program reader see the package's files in one canonical order (shared with C13 R13.5/R13.2)")
